@@ -107,7 +107,8 @@ func scribble(cs [][]byte) {
 }
 
 // targets: 0 interface{}; 1 map[string][]interface{}; 2 map[string]map[string]interface{};
-// 3 map[string]*string; 4 []string  (reflection-based map / slice unfolders and their keys)
+// 3 map[string]*string; 4 []string  (reflection-based map / slice unfolders and their keys);
+// 5, 6 structs with an inlined map for the members that have no field
 func aliasTargets(kind int) (interface{}, interface{}, func() string) {
 	switch kind {
 	case 1:
@@ -137,6 +138,22 @@ func aliasTargets(kind int) (interface{}, interface{}, func() string) {
 	case 4:
 		var a, b []string
 		return &a, &b, func() string { return fmt.Sprintf("%#v", a) }
+	case 5:
+		// a struct that collects unknown members in an inlined map (refused by the library as it
+		// stands: the case then says nothing; kept for the day it is accepted)
+		type rest struct {
+			K0   string
+			Rest map[string]interface{} `struct:",inline"`
+		}
+		var a, b rest
+		return &a, &b, func() string { return fmt.Sprintf("%#v", a) }
+	case 6:
+		type rest struct {
+			K0   string
+			Rest map[string]string `struct:",inline"`
+		}
+		var a, b rest
+		return &a, &b, func() string { return fmt.Sprintf("%#v", a) }
 	}
 	var a, b interface{}
 	return &a, &b, func() string { return valTokAny(a) }
@@ -148,7 +165,10 @@ func aliasRun(f *format, gcEvery, cache, tkind int, doc1, doc2 [][]byte) string 
 		// (a) unfolder
 		c1, c2 := ownChunks(doc1), ownChunks(doc2)
 		pt1, pt2, show := aliasTargets(tkind)
-		u, _ := gotype.NewUnfolder(pt1)
+		u, uerr := gotype.NewUnfolder(pt1)
+		if uerr != nil {
+			return // the target type is not supported: nothing to observe
+		}
 		if cache >= 0 {
 			u.EnableKeyCache(cache)
 		}
@@ -232,7 +252,7 @@ func aliasCase(r *rng) string {
 	}
 	tkind := 0
 	if r.chance(1, 2) {
-		tkind = 1 + r.n(4)
+		tkind = 1 + r.n(6)
 		shaped := func() [][]byte {
 			str := func(i int) event {
 				return event{kind: evStr, sc: scalar{kind: evStr, s: []byte(strings.Repeat("s", r.n(80)) + fmt.Sprint(i))}}
@@ -257,7 +277,7 @@ func aliasCase(r *rng) string {
 						evs = append(evs, event{kind: evArrStart, n: -1}, str(i), event{kind: evArrEnd})
 					case 2:
 						evs = append(evs, event{kind: evObjStart, n: -1}, key(i+10), str(i), event{kind: evObjEnd})
-					case 3:
+					case 3, 5, 6:
 						evs = append(evs, str(i))
 					}
 				}
